@@ -72,7 +72,7 @@ PROBES = ['mode:line-client', 'mode:line-server', 'mode:irc', 'cut:CR|LF', 'cut:
           'tail-held', 'tail-completed', 'fault:short_read', 'fault:spurious_eagain_read', 'fault:short_write', 'irc:refused-at-construction',
           'irc:one-line', 'irc:message-direct']
 TIERS = {
-    'quick': dict(runs=24000, wall=30, chunk=100, cfg=dict(max_tokens=14, max_cmds=4)),
+    'quick': dict(runs=55000, wall=30, chunk=100, cfg=dict(max_tokens=14, max_cmds=4)),
     'thorough': dict(runs=600000, wall=600, chunk=400, cfg=dict(max_tokens=40, max_cmds=10)),
 }
 
